@@ -283,6 +283,13 @@ def run(tier, prop='C01', cfgs=None, explanation=None):
                 rep.broke('ENCODING-MISMATCH %s: %s | %s' % (fullkey, what_full, tail))
         rep.obligation(name, status, issues=[i[0] for i in res['issues']], **bound)
         rep.samples += res['samples'][:2]
+    if prop == 'C01':
+        # whole-program part: unification / occurs check through compound objects (tuples, #[compound] structs, Option fields, lists
+        # stored in compound fields) decided like the program templates of the other properties
+        import progrun
+        import tmpl
+        ts = [t for t in tmpl.compounds() + tmpl.compound_structs() if any(w in t[0] for w in ('unify', 'occurs', 'option', 'type_mismatch', 'vs_list', 'recursive', 'typed_var'))]
+        progrun.run_templates(rep, prop, ts, 'c01p', window=3)
     rep.functions += sorted(called)
     rep.extra['states'] = tot_paths
     rep.extra['transitions'] = tot_steps
